@@ -645,8 +645,8 @@ def run(chk, replay=None):
     TABLE_ANGLES = set(info['rot_keys'])
     TABLE_NORMALISE = bool(info['rot_normalise'])
     # ---- 2. proofs
-    broken = chk.lean(['Lcapy/Props/C20.lean', 'Lcapy/Props/C20Placer.lean', 'Lcapy/Props/C20Shapes.lean'],
-                      helper_files=['Lcapy/Proofs/LayoutBase.lean', 'Lcapy/Proofs/LayoutPlacer.lean', 'Lcapy/Model/Layout.lean',
+    broken = chk.lean(['Lcapy/Props/C20.lean', 'Lcapy/Props/C20Placer.lean', 'Lcapy/Props/C20Shapes.lean', 'Lcapy/Props/NonVacuityC20.lean'],
+                      helper_files=['Lcapy/Proofs/LayoutBase.lean', 'Lcapy/Proofs/LayoutPlacer.lean', 'Lcapy/Proofs/LayoutShapes.lean', 'Lcapy/Model/Layout.lean',
                                     'Lcapy/Model/LayoutPlacer.lean', 'Lcapy/Model/LayoutTypes.lean',
                                     'Lcapy/Spec/Layout.lean', 'Lcapy/Driver/C20.lean', 'Lcapy/Driver/C20Placer.lean'],
                       leanchecker=(chk.tier == 'thorough'))
